@@ -412,5 +412,153 @@ Lemma unit_lines_ok :
   forallb (fun l => reprints_value CK15 (cfg_seps (s ".") (s ",")) EN l) (unit_lines (s ".")) = true /\
   forallb (fun l => reprints_value CK15 (cfg_seps (s ".") []) TR l) (unit_lines (s ".")) = true /\
   forallb (fun l => reprints_value CK15 (cfg_seps (s ",") []) TR l) (unit_lines (s ",")) = true /\
-  length (unit_lines (s ",")) = 72%nat.
+  length (unit_lines (s ",")) = 61%nat.
 Proof. vm_compute. repeat split; reflexivity. Qed.
+
+(* ================================================================ 2. based integers (composition of C13) *)
+Section Based.
+Context {F : Type} {NF : Num F}.
+
+(* print, read the digits back, print again: the same text, for every non-negative value the number type holds
+   exactly after the cast (side condition of C13_print_read_int; every |n| <= 2^53 at binary64) *)
+Theorem based_roundtrip : forall cfg lang year (x : F) t, based t -> 0 <= as_i64 x ->
+  as_i64 (fofZ (as_i64 x) : F) = as_i64 x ->
+  exists ds y,
+    item_print cfg lang year (INumber x t) = Ok (prefix_of t ++ ds) /\
+    from_radix (base_of t) ds = Some y /\
+    item_print cfg lang year (INumber y t) = Ok (prefix_of t ++ ds).
+Proof.
+  intros cfg lang year x t Hb Hx Hrt.
+  destruct (print_read cfg lang year x t Hb Hx) as [ds [H1 [H2 [_ H4]]]].
+  exists ds, (fofZ (as_i64 x)). split; [exact H1|]. split; [exact H4|].
+  rewrite print_based by exact Hb. rewrite Hrt.
+  destruct (Z.ltb_spec (as_i64 x) 0) as [Hlt|_]; [lia|]. rewrite <- H2. reflexivity.
+Qed.
+End Based.
+
+(* ================================================================ 3. durations *)
+(* a printed part `count word` re-read by the duration rule (word -> constant of the same unit, 1a) *)
+Definition reread_part (p : durkind * Z) : option Z := duration_of_const (kind_const (fst p)) (snd p).
+Definition part_secs (p : durkind * Z) : Z := snd p * unit_len (fst p).
+
+Lemma const_kind_kind_const k : const_kind (kind_const k) = Some k.
+Proof. destruct k; reflexivity. Qed.
+
+Lemma parts_sum_fold ps : forall acc, fold_left Z.add (map part_secs ps) acc = acc + parts_sum ps.
+Proof.
+  induction ps as [|[k c] r IH]; intro acc; cbn [map fold_left parts_sum]; [lia|].
+  rewrite IH. unfold part_secs. cbn [fst snd]. lia.
+Qed.
+
+Lemma part_le_sum ps : Forall (fun p => 0 < snd p) ps ->
+  0 <= parts_sum ps /\ forall p, In p ps -> 0 <= part_secs p <= parts_sum ps.
+Proof.
+  induction 1 as [|[k c] r Hc _ IH]; cbn [parts_sum]; [split; [lia|intros p []]|].
+  destruct IH as [IH0 IH]. cbn [snd] in Hc.
+  assert (Hu : 0 < unit_len k) by (destruct k; reflexivity).
+  assert (0 <= c * unit_len k) by nia. split; [lia|].
+  intros p [<-|Hin]; unfold part_secs; cbn [fst snd]; [lia|]. specialize (IH p Hin). unfold part_secs in IH. lia.
+Qed.
+
+Lemma firstn_sum_nonneg ds : Forall (fun d => 0 <= d) ds -> forall j acc, 0 <= acc ->
+  acc <= fold_left Z.add (firstn j ds) acc <= fold_left Z.add ds acc.
+Proof.
+  induction 1 as [|d r Hd _ IH]; intros j acc Hacc.
+  - destruct j; cbn; lia.
+  - destruct j as [|j]; cbn [firstn fold_left].
+    + specialize (IH 0%nat (acc + d)). cbn [firstn fold_left] in IH. lia.
+    + specialize (IH j (acc + d)). lia.
+Qed.
+
+(* every part the printer writes, re-read, denotes count * unit length - provided the month count is below 12 (it can
+   be 12: known finding C15-K6) - and the parts sum to the magnitude: UNBOUNDED, every duration chrono can hold *)
+Theorem duration_parts_reread : forall secs, in_range secs ->
+  (forall c, In (DMonth, c) (dur_parts secs) -> c < 12) ->
+  Forall (fun p => reread_part p = Some (part_secs p)) (dur_parts secs) /\
+  parts_sum (dur_parts secs) = Z.abs secs.
+Proof.
+  intros secs Hr Hm. pose proof (greedy_sum secs) as Hs. split; [|exact Hs].
+  destruct (greedy_shape secs) as [Hok _].
+  assert (Hpos : Forall (fun p => 0 < snd p) (dur_parts secs)).
+  { eapply Forall_impl; [|exact Hok]. intros p [H _]. exact H. }
+  destruct (part_le_sum _ Hpos) as [_ Hle]. rewrite Hs in Hle.
+  assert (Habs : Z.abs secs <= DUR_MAX) by (unfold in_range in Hr; lia).
+  rewrite Forall_forall. intros [k c] Hin. specialize (Hle _ Hin). unfold part_secs in *. cbn [fst snd] in *.
+  rewrite Forall_forall in Hok. destruct (Hok _ Hin) as [Hc Hb]. cbn [fst snd] in Hc, Hb.
+  unfold reread_part. cbn [fst snd].
+  destruct k; try (apply parse_units; [reflexivity|discriminate|unfold in_range; lia]).
+  (* months *)
+  specialize (Hm c Hin). cbn [kind_const]. rewrite parse_month; [|lia|unfold in_range; rewrite DUR_MAX_val; lia].
+  rewrite Z.div_small by lia. rewrite Z.mod_small by lia. f_equal. lia.
+Qed.
+
+Section Combine.
+Context {F : Type} {NF : Num F}.
+(* ... and the combine rule on the re-read parts (two or more) gives back the magnitude *)
+Theorem duration_recombine : forall (vs : vars F) secs tis, in_range secs ->
+  (forall c, In (DMonth, c) (dur_parts secs) -> c < 12) ->
+  Forall2 (fun ti p => exists d, reread_part p = Some d /\ ti_ty ti = Some (TDuration d)) tis (dur_parts secs) ->
+  (2 <= length tis)%nat ->
+  combine_durations vs (dur_fields tis) = Ok (Some (TDuration (Z.abs secs))).
+Proof.
+  intros vs secs tis Hr Hm Hf Hlen. destruct (duration_parts_reread secs Hr Hm) as [Hre Hs].
+  assert (Hf' : Forall2 (fun ti d => ti_ty ti = Some (TDuration d)) tis (map part_secs (dur_parts secs))).
+  { revert Hre. induction Hf as [|ti p tis ps [d [Hd Ht]] _ IH]; intro Hre; cbn [map]; constructor.
+    - inversion Hre as [|? ? Hp _]; subst. rewrite Hp in Hd. inversion Hd; subst. exact Ht.
+    - apply IH. inversion Hre; assumption. }
+  rewrite (additive_combine_exact vs tis _ Hf' Hlen).
+  destruct (greedy_shape secs) as [Hok _].
+  assert (Hnn : Forall (fun d => 0 <= d) (map part_secs (dur_parts secs))).
+  { rewrite Forall_forall. intros d Hd. apply in_map_iff in Hd. destruct Hd as [[k c] [<- Hin]].
+    rewrite Forall_forall in Hok. destruct (Hok _ Hin) as [Hc _]. unfold part_secs. cbn [fst snd] in *.
+    assert (0 < unit_len k) by (destruct k; reflexivity). nia. }
+  rewrite sum_checked_ok.
+  - rewrite parts_sum_fold, Hs. reflexivity.
+  - intros j _. pose proof (firstn_sum_nonneg _ Hnn j 0 (Z.le_refl 0)) as Hj.
+    rewrite parts_sum_fold, Hs in Hj. unfold in_range in *. lia.
+Qed.
+End Combine.
+
+(* the printer does write 12 months, and 12 months re-read are a 365-day year: 5 days more *)
+Lemma twelve_months_refuted :
+  dur_parts (364 * 86400) = [(DMonth, 12); (DDay, 4)] /\
+  reread_part (DMonth, 12) = Some (365 * 86400) /\ part_secs (DMonth, 12) = 360 * 86400 /\
+  dur_parts (729 * 86400) = [(DYear, 1); (DMonth, 12); (DDay, 4)].
+Proof. vm_compute. repeat split; reflexivity. Qed.
+
+(* when does it happen: exactly when the remainder after the whole years reaches 360 days *)
+Lemma twelve_months_iff : forall secs,
+  (exists c, In (DMonth, c) (dur_parts secs) /\ 12 <= c) <-> 12 * MONTH <= Z.abs secs mod YEAR.
+Proof.
+  intro secs. unfold dur_parts. set (d := Z.abs secs). assert (Hd : 0 <= d) by apply Z.abs_nonneg.
+  cbn [dur_parts_from dur_unit].
+  assert (HY : YEAR = 31536000) by reflexivity. assert (HM : MONTH = 2592000) by reflexivity.
+  assert (Hmod : 0 <= d mod YEAR < YEAR) by (apply Z.mod_pos_bound; rewrite HY; lia).
+  (* the month part depends only on the remainder after the years *)
+  assert (Hrem : forall r, 0 <= r ->
+            (exists c, In (DMonth, c)
+               (let '(ps, rest) := (if MONTH <=? r
+                  then let '(ps, rest) := dur_parts_from [DWeek; DDay; DHour; DMinute] (r mod MONTH) in ((DMonth, r / MONTH) :: ps, rest)
+                  else dur_parts_from [DWeek; DDay; DHour; DMinute] r) in
+                ps ++ (if 0 <? rest then [(DSecond, rest)] else [])) /\ 12 <= c) <-> 12 * MONTH <= r).
+  { intros r Hr. assert (Hno : forall x c, ~ In (DMonth, c)
+       (let '(ps, rest) := dur_parts_from [DWeek; DDay; DHour; DMinute] x in ps ++ (if 0 <? rest then [(DSecond, rest)] else []))).
+    { intros x c. cbn [dur_parts_from dur_unit].
+      repeat match goal with |- context [if ?b then _ else _] => destruct b end;
+        cbn [app In]; intro H; repeat (destruct H as [H|H]; [discriminate|]); exact H. }
+    destruct (Z.leb_spec MONTH r) as [Hge|Hlt].
+    - specialize (Hno (r mod MONTH)). destruct (dur_parts_from [DWeek; DDay; DHour; DMinute] (r mod MONTH)) as [ps rest].
+      cbn [app In]. split.
+      + intros [c [[E|Hin] Hc]]; [inversion E; subst c; rewrite HM in *; lia|exfalso; exact (Hno c Hin)].
+      + intro H. exists (r / MONTH). split; [left; reflexivity|]. rewrite HM in *. lia.
+    - specialize (Hno r). destruct (dur_parts_from [DWeek; DDay; DHour; DMinute] r) as [ps rest]. split.
+      + intros [c [Hin _]]. exfalso. exact (Hno c Hin).
+      + intro H. rewrite HM in *. lia. }
+  destruct (Z.leb_spec YEAR d) as [Hge|Hlt].
+  - specialize (Hrem (d mod YEAR) (proj1 Hmod)).
+    destruct (if MONTH <=? d mod YEAR then _ else _) as [ps rest] eqn:E in Hrem |- *.
+    cbn [app In]. rewrite <- Hrem. split.
+    + intros [c [[E'|Hin] Hc]]; [discriminate|]. exists c. split; assumption.
+    + intros [c [Hin Hc]]. exists c. split; [right; exact Hin|exact Hc].
+  - rewrite (Z.mod_small d YEAR) by lia. apply Hrem. exact Hd.
+Qed.
